@@ -9,11 +9,18 @@
                  typed metadata, tags without blanks):
      C06_qua_read_denotes, C06_qua_write_wf_denotes (= qua_write_wf + qua_write_denotes), C06_qua_read_after_write,
      C06_qua_write_after_read, plus oracle soundness, truncation / no-drift / Tags laws and the per-list theorems.
-   Not proved: generation 2 = generation 1 as a whole-document statement (cell level: C06_no_drift_cell; per run: oracle),
-   completeness of the boolean oracles, and anything about charts outside the strict domain (extra columns, NaN cells):
-   those are covered by the per-run correspondence only.  PyYAML is outside (tree level). *)
+   Generations (Proofs/QuaGenProofs.v): the writer's documents have the decidable shape gen_docb, write o read maps every
+   document of that shape to the same document (doc_same; Leibniz-equal when the point records carry StartTime first),
+   so generation 2 = generation 1 and every later generation = generation 2 exactly (the C06_generation theorems).
+   Resolution 0 (Proofs/QuaExactProofs.v): all times of a document of the reader's domain are integers, hence
+   write (read d) denotes exactly what d denotes and read (write (read d)) is exactly the chart read d
+   (C06_qua_write_after_read_exact, C06_qua_read_write_read_exact).  Oracles: read_specb / rw_specb are complete;
+   write_specb / wr_specb are exactly the POSITIONAL relations (complete for them), and refuted for the
+   permutation-closed WriteSpec (C06_write_oracle_complete_refuted).
+   Not proved: anything about charts outside the strict domain (extra columns, NaN cells): those are covered by the
+   per-run correspondence only.  PyYAML is outside (tree level). *)
 From Coq Require Import ZArith QArith Qabs List Bool.
-From RV Require Import Base.PyNum Formats.Qua Formats.QuaSpec Generated.Tables Proofs.QuaProofs.
+From RV Require Import Base.PyNum Formats.Qua Formats.QuaSpec Formats.QuaGenSpec Generated.Tables Proofs.QuaProofs Proofs.QuaGenProofs Proofs.QuaExactProofs.
 Import ListNotations.
 Open Scope Z_scope.
 
@@ -200,3 +207,116 @@ Example C06_clean_chart_ok :
   let c := wit_conv_chart false false in
   wf_chartb false c = true /\ write_ok c = true /\ wr_specb c (Live.write c >>= Live.read) = true.
 Proof. exact qua_write_clean_chart_ok. Qed.
+
+(* ================================================================== GENERATIONS, whole documents (Proofs/QuaGenProofs.v)
+   Equality of documents, said precisely.  [doc_same d' d]: the same top-level keys in the same order (the 21 metadata
+   keys of _write_meta, then TimingPoints, SliderVelocities, HitObjects); every metadata value identical (Leibniz: a YAML int
+   is an int, a float a float, the same text); the note records identical, in the same order, with the same key order
+   inside each record; the timing-point and scroll-velocity records in the same order, each the same key -> value map with
+   identical values -- only the order of the two keys inside such a record may differ (the chart's column order is written
+   through by the first write; the reader rebuilds the fixed order offset, bpm).  doc_same implies the runner's relation
+   tree_eqb true (C06_doc_same_is_runner_relation) and is Leibniz equality when both documents carry StartTime first in
+   their point records (C06_doc_same_canonical_is_eq). *)
+(* (I) every document written from a strict chart has the generation shape (all keys, complete records, hits before holds,
+   one key order per note kind with EndTime last, Tags normalised) *)
+Theorem C06_written_doc_has_generation_shape : forall c, wf_chartb false c = true ->
+  exists d, Live.write c = Some d /\ gen_docb d = true.
+Proof. exact qua_write_gen_doc. Qed.
+(* (II) on EVERY document of that shape (not only written ones) write o read gives the same document back *)
+Theorem C06_generation_doc_fixed : forall d, gen_docb d = true ->
+  exists c d', Live.read d = Some c /\ wf_chartb false c = true /\ Live.write c = Some d' /\
+               doc_same d' d /\ pts_canonb d' = true /\ gen_docb d' = true.
+Proof. exact qua_gen_doc_fixed. Qed.
+Theorem C06_generation_fixed_point : forall d, gen_docb d = true -> pts_canonb d = true -> regen d = Some d.
+Proof. exact qua_regen_fixed_point. Qed.
+(* (III) generation 2 = generation 1 for every strict chart ... *)
+Theorem C06_generation_2_is_1 : forall c, wf_chartb false c = true ->
+  exists d1 c1 d2, Live.write c = Some d1 /\ Live.read d1 = Some c1 /\ wf_chartb false c1 = true /\ Live.write c1 = Some d2 /\
+                   doc_same d2 d1 /\ gen_docb d1 = true /\ gen_docb d2 = true /\ pts_canonb d2 = true.
+Proof. exact qua_generation_2_is_1. Qed.
+(* ... Leibniz-equal when generation 1 carries StartTime first in its point records (default column order) ... *)
+Theorem C06_generation_2_eq_1_canonical : forall c d1, wf_chartb false c = true -> Live.write c = Some d1 -> pts_canonb d1 = true ->
+  regen d1 = Some d1.
+Proof. exact qua_generation_2_eq_1_canon. Qed.
+(* ... and every later generation IS generation 2 (no drift, ever) *)
+Theorem C06_generations_stable : forall c, wf_chartb false c = true ->
+  exists d1 d2, generation 0 c = Some d1 /\ generation 1 c = Some d2 /\ doc_same d2 d1 /\ forall n, generation (S n) c = Some d2.
+Proof. exact qua_generations_stable. Qed.
+(* Leibniz equality of generations 1 and 2 is FALSE without the guard: timing-point columns (bpm, metronome, offset) are
+   written Bpm-first and come back StartTime-first.  reamber does the same (yaml.dump(sort_keys=False)): the two texts
+   differ in that key order only, yaml.safe_load gives equal documents, generation 3 = generation 2 textually *)
+Theorem C06_generation_2_leibniz_refuted :
+  let c := wit_conv_chart false false in
+  wf_chartb false c = true /\ generation 1 c <> generation 0 c /\
+  first_tp_keys (generation 0 c) = [K_Bpm; K_StartTime] /\ first_tp_keys (generation 1 c) = [K_StartTime; K_Bpm] /\
+  match generation 0 c, generation 1 c with Some a, Some b => tree_eqb true b a | _, _ => false end = true /\
+  generation 2 c = generation 1 c.
+Proof. exact qua_generation_2_leibniz_refuted. Qed.
+Theorem C06_doc_same_is_runner_relation : forall d' d, wf_qua_docb d = true -> doc_same d' d -> tree_eqb true d' d = true.
+Proof. exact doc_same_tree_eqb. Qed.
+Theorem C06_doc_same_canonical_is_eq : forall d' d, gen_docb d = true -> doc_same d' d -> pts_canonb d = true -> pts_canonb d' = true -> d' = d.
+Proof. exact doc_same_canon_eq. Qed.
+Theorem C06_doc_same_equivalence : (forall a b, doc_same a b -> doc_same b a) /\ (forall a b c, doc_same a b -> doc_same b c -> doc_same a c).
+Proof. exact (conj doc_same_sym doc_same_trans). Qed.
+(* the conjunct `w1 = w2` of the runner's spec_ok is a theorem about the model on both domains *)
+Theorem C06_chart_generations_runner_relation : forall c, wf_chartb false c = true ->
+  otree_same (Live.write c >>= Live.read >>= Live.write) (Live.write c) = true.
+Proof. exact qua_chart_generations_tree_eqb. Qed.
+Theorem C06_doc_generations_runner_relation : forall doc, wf_docb doc = true ->
+  otree_same (Live.read doc >>= Live.write >>= Live.read >>= Live.write) (Live.read doc >>= Live.write) = true.
+Proof. exact qua_doc_generations_tree_eqb. Qed.
+
+(* ================================================================== RESOLUTION 0 after the first trip (Proofs/QuaExactProofs.v)
+   every time declared by a document of the reader's domain is an integer; two integers less than 1 ms apart are equal *)
+Theorem C06_document_times_are_integers : forall doc e, wf_docb doc = true -> qua_denote doc = Some e -> den_int e.
+Proof. exact qua_denote_int. Qed.
+Theorem C06_close_integers_equal : forall e a, den_int e -> den_int a -> den_close e a -> den_eq e a.
+Proof. exact den_close_int_eq. Qed.
+(* write after read: the written document denotes EXACTLY what the source denotes (multisets, Qeq on times, equal metadata) *)
+Theorem C06_qua_write_after_read_exact : forall doc, wf_docb doc = true -> ReadWriteSpec doc (Live.read doc >>= Live.write).
+Proof. exact qua_write_after_read_exact. Qed.
+(* read after write after read: exactly the chart of the first read *)
+Theorem C06_qua_read_write_read_exact : forall doc, wf_docb doc = true ->
+  exists c1 d1 c2 a1 a2, Live.read doc = Some c1 /\ Live.write c1 = Some d1 /\ Live.read d1 = Some c2 /\
+    wf_chartb false c2 = true /\ chart_denote c1 = Some a1 /\ chart_denote c2 = Some a2 /\ den_eq a1 a2.
+Proof. exact qua_read_write_read_exact. Qed.
+(* from a chart (float times allowed): the first write moves times by < 1 ms (C06_qua_read_after_write), the second read
+   returns exactly the chart of the first read *)
+Theorem C06_qua_chart_second_read_exact : forall c, wf_chartb false c = true ->
+  exists d0 c1 d1 c2 a1 a2, Live.write c = Some d0 /\ Live.read d0 = Some c1 /\ Live.write c1 = Some d1 /\ Live.read d1 = Some c2 /\
+    chart_denote c1 = Some a1 /\ chart_denote c2 = Some a2 /\ den_eq a1 a2.
+Proof. exact qua_chart_second_read_exact. Qed.
+
+(* ================================================================== completeness of the boolean oracles *)
+Theorem C06_read_oracle_complete : forall doc out, ReadSpec doc out -> read_specb doc out = true.
+Proof. exact read_specb_complete. Qed.
+Theorem C06_rw_oracle_sound : forall doc out, rw_specb doc out = true -> ReadWriteSpec doc out.
+Proof. exact rw_specb_sound. Qed.
+Theorem C06_rw_oracle_complete : forall doc out, ReadWriteSpec doc out -> rw_specb doc out = true.
+Proof. exact rw_specb_complete. Qed.
+(* the writer oracles compare record i with row i: they ARE the positional relations ... *)
+Theorem C06_write_oracle_is_positional : forall c out, write_specb c out = true <-> WriteSpecPos c out.
+Proof. exact write_specb_iff_pos. Qed.
+Theorem C06_write_read_oracle_is_positional : forall c out, wr_specb c out = true <-> WriteReadSpecPos c out.
+Proof. exact wr_specb_iff_pos. Qed.
+(* ... so completeness for the permutation-closed WriteSpec is FALSE (a correct document listing the notes in another order
+   is rejected).  No false alarm on the writer: it keeps the order (C06_qua_write_live_ok holds on the whole domain) *)
+Theorem C06_write_oracle_complete_refuted :
+  wf_chartb false wit_two_hits = true /\ WriteSpec wit_two_hits wit_swapped /\ write_specb wit_two_hits wit_swapped = false /\
+  write_specb wit_two_hits (Live.write wit_two_hits) = true.
+Proof. exact write_specb_complete_refuted. Qed.
+
+(* non-vacuity of the new statements *)
+Example C06_generations_nontrivial :
+  wf_chartb false wit_gen_chart = true /\
+  option_map gen_docb (generation 0 wit_gen_chart) = Some true /\ option_map pts_canonb (generation 0 wit_gen_chart) = Some false /\
+  option_map pts_canonb (generation 1 wit_gen_chart) = Some true /\
+  generation 1 wit_gen_chart <> generation 0 wit_gen_chart /\ generation 3 wit_gen_chart = generation 1 wit_gen_chart /\
+  otree_same (generation 1 wit_gen_chart) (generation 0 wit_gen_chart) = true.
+Proof. exact generations_nontrivial. Qed.
+Example C06_exactness_nontrivial :
+  wf_docb wit_clean = true /\ rw_specb wit_clean (Live.read wit_clean >>= Live.write) = true /\
+  match Live.read wit_clean, Live.read wit_clean >>= Live.write >>= Live.read with
+  | Some c1, Some c2 => match chart_denote c1, chart_denote c2 with Some a1, Some a2 => den_eqb a1 a2 | _, _ => false end
+  | _, _ => false end = true.
+Proof. exact exact_nontrivial. Qed.
